@@ -586,9 +586,113 @@ def check_swap_handler(ctx, top):
                           required="the two units are exchanged through a temporary unit: i -> tmp, j -> i, tmp -> j")
 
 
+def check_measurements(ctx, top):
+    """R13.15: each measured wire is measured from ITS qubit register into ITS bit register: the j-th wire of the box reads qubits[qubit_offset + j] and (when overwriting) bits[bit_offset + j]"""
+    mq = inner(ctx, top, "measure_qubits")
+    q = TK + ".to_tk.measure_qubits"
+    a = [x.arg for x in mq.args.args]
+    ctx.need(len(a) == 5, "measure_qubits does not take (qubits, bits, box, bit_offset, qubit_offset)")
+    N = dict(zip(a, ("qubits", "bits", "box", "bit_offset", "qubit_offset")))
+    ov = next((s for s in mq.body if isinstance(s, ast.If) and "override_bits" in ast.unparse(s.test)), None)
+    ctx.need(ov is not None, "measure_qubits has no case for measurements that overwrite bits")
+    lp = next((s for s in ov.body if isinstance(s, ast.For)), None)
+    ctx.need(lp is not None and isinstance(lp.target, ast.Tuple), "measure_qubits: no loop in the overwriting case")
+    N1 = dict(N)
+    N1[lp.target.elts[0].id] = "j"
+    shape.match_stmts(ctx, "R13.15", q + ":overwrite", lp.body, ["i_bit = bits[bit_offset + j]", "i_qubit = qubits[qubit_offset + j]", "tk_circ.Measure(i_qubit, i_bit)"], N1, mod=TK, node=lp, sig="measure-overwrite", exact=True,
+                      required="the j-th qubit of the box is measured into the j-th bit of the box: Measure(qubit, bit)")
+    main = next((s for s in mq.body if isinstance(s, ast.For)), None)
+    ctx.need(main is not None and isinstance(main.target, ast.Tuple), "measure_qubits: no loop over the measured wires")
+    N2 = dict(N)
+    N2[main.target.elts[0].id] = "j"
+    shape.match(ctx, "R13.15", q + ":wires", main.iter, "enumerate(box.dom)", N, mod=TK, node=main, sig="measure-wires")
+    relevant = [s for s in main.body if not (isinstance(s, ast.If) and "Bra" not in ast.unparse(s.test))]
+    shape.match_stmts(ctx, "R13.15", q + ":fresh-bit", relevant, ["i_bit, i_qubit = len(tk_circ.bits), qubits[qubit_offset + j]", "tk_circ.Measure(i_qubit, i_bit)",
+                                                                  "if isinstance(box, Bra):\n    tk_circ.post_select({i_bit: box.bitstring[j]})"], N2, mod=TK, node=main, sig="measure-fresh",
+                      required="a fresh bit register (the next free index) receives the j-th qubit; an effect records the post-selected value of that very bit: its j-th digit")
+    order = [shape.head(s) for s in main.body]
+    pos = {h: k for k, h in enumerate(order)}
+    ok = pos.get("call:tk_circ.add_bit", 99) < pos.get("call:tk_circ.Measure", -1)
+    ctx.ob("R13.15", q + ":bit-before-measure", ok, found=order, required="the bit register is added before it is measured into", mod=TK, node=main, sig="measure-order")
+    ret = [r for r in mq.body if isinstance(r, ast.Return)] + [r for r in ov.body if isinstance(r, ast.Return)]
+    for r in ret:
+        shape.match(ctx, "R13.15", q + ":returns", r.value, "(bits, qubits)", N, mod=TK, node=r, sig="measure-returns", required="(bits, qubits), the order in which to_tk unpacks them")
+    loop = next((s for s in top.body if isinstance(s, ast.For) and "layers" in ast.unparse(s.iter)), None)
+    call = next((s for s in ast.walk(loop) if isinstance(s, ast.Assign) and isinstance(s.value, ast.Call) and ast.unparse(s.value.func) == "measure_qubits"), None)
+    ctx.need(call is not None, "to_tk does not call measure_qubits")
+    NL = {loop.target.elts[0].id: "left", loop.target.elts[1].id: "box"}
+    shape.match_stmts(ctx, "R13.15", TK + ".to_tk:measure-call", [call], ["bits, qubits = measure_qubits(qubits, bits, box, left.count(bit), left.count(qubit))"], NL, mod=TK, node=call, sig="measure-call", exact=True,
+                      required="offsets = numbers of bit / qubit wires to the left of the box, in the order the helper takes them")
+    # the discarding of bits in the post-processing: the all-ones effect on n bits
+    dis = next((s for s in ast.walk(loop) if isinstance(s, ast.Call) and ast.unparse(s.func) == "ClassicalGate" and s.args and isinstance(s.args[0], ast.Constant) and s.args[0].value == "Discard"), None)
+    ctx.need(dis is not None, "to_tk: the discarding of bits is not a ClassicalGate('Discard', ...)")
+    shape.match(ctx, "R13.15", TK + ".to_tk:discard-bits", dis, "ClassicalGate('Discard', n_bits, 0, 2 ** n_bits * [1])", {}, mod=TK, node=dis, sig="discard-bits", required="n bits in, none out, every entry 1 (the marginal)")
+    nb = next((s for s in ast.walk(loop) if isinstance(s, ast.Assign) and isinstance(s.targets[0], ast.Name) and s.targets[0].id == "n_bits"), None)
+    shape.match(ctx, "R13.15", TK + ".to_tk:discard-bits:width", nb.value if nb else None, "box.dom.count(bit)", NL, mod=TK, node=nb or loop, sig="discard-bits-width")
+
+
+def check_counts_pipeline(ctx):
+    """R13.14: what tk.Circuit.get_counts does to the raw counts of the backend: options read under their own names, frequencies, the recorded post-selection, the recorded scalar"""
+    m = ctx.model
+    q = TK + ".Circuit.get_counts"
+    fn = m.func(q)
+    kw = fn.args.kwarg.arg if fn.args.kwarg else "params"
+    n = 0
+    for st in fn.body:
+        if isinstance(st, ast.Assign) and isinstance(st.targets[0], ast.Name) and isinstance(st.value, ast.Call) and ast.unparse(st.value.func) == kw + ".get":
+            n += 1
+            a = st.value.args
+            ok = len(a) >= 1 and isinstance(a[0], ast.Constant) and a[0].value == st.targets[0].id
+            ctx.ob("R13.14", "%s:option[%s]" % (q, st.targets[0].id), ok, found=ast.unparse(st), required="the option is read under its own name, the default second", mod=TK, node=st, sig="option:" + st.targets[0].id, trivial=True)
+    ctx.need(n >= 5, "tk.Circuit.get_counts reads fewer than 5 options (%d)" % n)
+    defaults = {st.targets[0].id: ast.unparse(st.value.args[1]) for st in fn.body if isinstance(st, ast.Assign) and isinstance(st.targets[0], ast.Name) and isinstance(st.value, ast.Call)
+                and ast.unparse(st.value.func) == kw + ".get" and len(st.value.args) == 2}
+    want = {"scale": "True", "post_select": "True", "normalize": "True", "measure_all": "False"}
+    bad = {k: defaults.get(k) for k, v in want.items() if defaults.get(k) != v}
+    ctx.ob("R13.14", q + ":defaults", not bad, found=bad or want, required="by default counts are normalised, post-selected and scaled, and no measurement is added", mod=TK, node=fn, sig="option-defaults")
+    blocks = {ast.unparse(s.test): s for s in fn.body if isinstance(s, ast.If)}
+    nb = blocks.get("normalize")
+    ctx.need(nb is not None and blocks.get("post_select") is not None and blocks.get("scale") is not None, "get_counts: the normalize / post_select / scale steps are not guarded by their options")
+    shape.match_stmts(ctx, "R13.14", q + ":normalize", nb.body, ["counts = list(map(probs_from_counts, counts))"], mod=TK, node=nb, sig="normalize", exact=True, required="frequencies instead of numbers of shots, for every circuit")
+    order = [ast.unparse(s.test) for s in fn.body if isinstance(s, ast.If) and ast.unparse(s.test) in ("normalize", "post_select")]
+    ctx.ob("R13.14", q + ":order", order == ["normalize", "post_select"], found=order, required="frequencies are taken over ALL shots, before the outcomes that disagree with the post-selection are dropped (scaling commutes with both)",
+           mod=TK, node=fn, sig="pipeline-order")
+    ps = blocks["post_select"]
+    lp = next((s for s in ps.body if isinstance(s, ast.For)), None)
+    ctx.need(lp is not None and isinstance(lp.target, ast.Tuple), "get_counts: no loop over the circuits in the post-selection step")
+    N = {lp.target.elts[0].id: "i", lp.target.elts[1].id: "circuit"}
+    inner = next((s for s in lp.body if isinstance(s, ast.For)), None)
+    ctx.need(inner is not None and isinstance(inner.target, ast.Tuple), "get_counts: no loop over the bitstrings in the post-selection step")
+    shape.match(ctx, "R13.14", q + ":post-select:counts", inner.iter, "counts[i].items()", N, mod=TK, node=inner, sig="ps-iter")
+    N2 = dict(N)
+    N2.update({inner.target.elts[0].id: "bitstring", inner.target.elts[1].id: "count"})
+    shape.match_stmts(ctx, "R13.14", q + ":post-select:filter", inner.body,
+                      ["if all((bitstring[index] == value for index, value in circuit.post_selection.items())):\n    key = tuple((value for index, value in enumerate(bitstring) if index not in circuit.post_selection))\n    post_selected.update({key: count})"],
+                      N2, mod=TK, node=inner, sig="ps-filter", exact=True, required="kept when every post-selected bit has its recorded value; keyed by the remaining bits in order")
+    flat = [s for s in lp.body if not isinstance(s, ast.For)]
+    shape.match_stmts(ctx, "R13.14", q + ":post-select:result", flat, ["post_selected = dict()", "counts[i] = post_selected"], N, mod=TK, node=lp, sig="ps-result", exact=True)
+    sc = blocks["scale"]
+    lp = next((s for s in sc.body if isinstance(s, ast.For)), None)
+    ctx.need(lp is not None and isinstance(lp.target, ast.Tuple), "get_counts: no loop over the circuits in the scaling step")
+    N = {lp.target.elts[0].id: "i", lp.target.elts[1].id: "circuit"}
+    inner = next((s for s in lp.body if isinstance(s, ast.For)), None)
+    ctx.need(inner is not None and isinstance(inner.target, ast.Name), "get_counts: no loop over the bitstrings in the scaling step")
+    shape.match(ctx, "R13.14", q + ":scale:counts", inner.iter, ["counts[i]", "counts[i].keys()", "list(counts[i])"], N, mod=TK, node=inner, sig="scale-iter")
+    N2 = dict(N)
+    N2[inner.target.id] = "bitstring"
+    shape.match_stmts(ctx, "R13.14", q + ":scale:factor", inner.body, ["counts[i][bitstring] *= circuit.scalar"], N2, mod=TK, node=inner, sig="scale-factor", exact=True, required="every frequency multiplied by the scalar recorded for that circuit")
+    shape.match(ctx, "R13.14", q + ":result", next((s.value for s in reversed(fn.body) if isinstance(s, ast.Return)), None), "counts", {}, mod=TK, node=fn, sig="counts-result")
+    res = next((s for s in fn.body if isinstance(s, ast.Assign) and ast.unparse(s.targets[0]) == "counts"), None)
+    shape.match(ctx, "R13.14", q + ":raw", res.value if res else None, "[backend.get_result(h).get_counts() for h in handles]", {}, mod=TK, node=res or fn, sig="counts-raw", required="one table of counts per submitted circuit, in order")
+
+
 def check(ctx):
     m = ctx.model
+    ctx.rule("R13.14", "tk.Circuit.get_counts: options under their own names; raw counts per circuit in order; normalise, keep the outcomes agreeing with the recorded post-selection keyed by the other bits, scale by the recorded scalar")
+    check_counts_pipeline(ctx)
     top = m.func(TK + ".to_tk")
+    ctx.rule("R13.15", "measurements: the j-th wire of the box goes from qubits[qubit_offset + j] into its own bit (Measure(qubit, bit)); effects post-select that bit on their j-th digit; discarded bits are the all-ones effect")
+    check_measurements(ctx, top)
     ctx.rule("R13.13", "swaps in to_tk: two qubit (bit) wires exchange their registers through a temporary unit; with a classical post-processing the swap is applied to its outputs at the wire position")
     check_swap_handler(ctx, top)
     fn = m.func(TK + ".from_tk")
